@@ -2,6 +2,7 @@ import Thanos.Common.Parse
 import Thanos.Model.Quorum
 import Thanos.Model.RWv2
 import Thanos.Model.Gate
+import Thanos.Model.GateId
 import Thanos.Model.Capnp
 /-
   Line-protocol driver of the `receive` family (C22 C23 C24 C25 C26).
@@ -45,6 +46,13 @@ import Thanos.Model.Capnp
                                          f  the oldest request inside the write path completes
       answer     per step `running.waiting.gauge.total` (after the freed slots were taken by blocked requests),
                  joined by `,`, then ` p=<panics> max=<most requests inside the write path at once>`
+
+  gate.first <entries> <cap> <K> <reload>                                          (C24)
+      K requests reach a freshly configured limiter at the same time (all of them are first arrivals: the
+      limiter has not handed out its gate yet); entries = endpoint letters (h/o) used round robin;
+      reload = 0: right after start-up | n>0: right after a limits reload to max_concurrency n (the K
+      requests are admitted under the new configuration)
+      answer     `running.waiting max=<most requests inside the write path at once>`
 
   capnp.rt (t<hex> <series>*)+                                                     (C25)
       a multi-tenant write request: tenant tokens `t`+hex, each followed by its series
@@ -288,6 +296,17 @@ def gateRun (doneFirst : Bool) (cap : Nat) (evs : List Ev) : String :=
     (s', acc.2 ++ [s!"{s'.running}.{s'.waiting}.{s'.gauge}.{s'.total}"])) (Gate.St.init cap, [])
   s!"{joinWith "," out} p={s.panics} max={s.maxRunning}"
 
+/-- K simultaneous first arrivals at the limiter of the code as it is (the arrivals are concurrent;
+    the limiter hands every one of them the stored gate, so their order does not matter) -/
+def gateFirst (cap k reload : Nat) : String :=
+  let loads : List LEv := if reload = 0 then [.load] else [.load, .load]
+  let c := if reload = 0 then cap else reload
+  -- a reload changes the configured capacity: the model's limiter is created with the capacity in force
+  let l := lrun codeLazyGate codeDoneFirstHTTP c (loads ++ List.replicate k .arrive)
+  match l.stored.bind (fun g => l.gates[g]?) with
+  | some r => s!"{r.st.running}.{r.st.waiting} max={r.st.maxRunning}"
+  | none => "bad-op"
+
 end GateOps
 
 /-! ### C25 -/
@@ -399,6 +418,12 @@ def handle : List String → String
     match parseTenants toks with
     | some req => if req.isEmpty then "bad-op" else capnpRT req
     | none => "bad-op"
+  | ["gate.first", entries, cap, k, reload] =>
+    match parseNat? cap, parseNat? k, parseNat? reload with
+    | some cap, some k, some reload =>
+      if cap = 0 ∨ k = 0 ∨ k > 8 ∨ entries.isEmpty ∨ !(entries.toList.all fun c => c = 'h' ∨ c = 'o') then "bad-op"
+      else gateFirst cap k reload
+    | _, _, _ => "bad-op"
   | ["gate", entry, cap, steps] =>
     match parseNat? cap, (listOf ',' steps).mapM parseStep with
     | some cap, some evs =>
